@@ -60,6 +60,7 @@ type HarnessResult struct {
 	MaxQuery   time.Duration
 	Wall       time.Duration
 	TimedOut   bool
+	StoppedEarly bool // a counterexample was confirmed natively during the exploration, which then ended
 	Remaining  int
 	Violations []Violation
 	Passes     []PathRec
@@ -78,7 +79,9 @@ type ConfirmedViolation struct {
 	Native string // the native trace line that confirmed it
 }
 
-func explore(ld *Loaded, spec HarnessSpec, tier string, seed int64, workers int, logSMT string) *HarnessResult {
+// early, when not nil, is asked to replay a symbolic counterexample natively as soon as it is found; once one is confirmed
+// the exploration stops (the verdict is decided: what is left could only add further counterexamples).
+func explore(ld *Loaded, spec HarnessSpec, tier string, seed int64, workers int, logSMT string, early func(v Violation) bool) *HarnessResult {
 	res := &HarnessResult{Spec: spec, Tier: tier, Bounds: spec.bounds(tier), Outcomes: map[string]int{}, Msgs: map[string]int{}, Covers: map[string]int{}, Funcs: map[string]int{}}
 	hfn := ld.hpkg.Func(spec.Name)
 	if hfn == nil {
@@ -136,7 +139,7 @@ func explore(ld *Loaded, spec HarnessSpec, tier string, seed int64, workers int,
 			}()
 			for {
 				e.mu.Lock()
-				if e.aborted {
+				if e.aborted || e.stopEarly {
 					e.mu.Unlock()
 					return
 				}
@@ -207,7 +210,10 @@ func explore(ld *Loaded, spec HarnessSpec, tier string, seed int64, workers int,
 				if outcome.kind == "timeout" {
 					res.TimedOut = true
 				}
-				if outcome.kind != "ok" && outcome.kind != "dead" {
+				if outcome.kind == "stopped" {
+					res.Paths--
+				}
+				if outcome.kind != "ok" && outcome.kind != "dead" && outcome.kind != "stopped" {
 					res.Msgs[outcome.kind+": "+outcome.msg]++
 				}
 				for c := range st.covers {
@@ -223,7 +229,41 @@ func explore(ld *Loaded, spec HarnessSpec, tier string, seed int64, workers int,
 			}
 		}(sv)
 	}
+	monDone := make(chan struct{})
+	if early != nil {
+		go func() {
+			tried := map[string]int{}
+			next := 0
+			for {
+				select {
+				case <-monDone:
+					return
+				case <-time.After(300 * time.Millisecond):
+				}
+				e.mu.Lock()
+				var todo []Violation
+				for ; next < len(e.Violations); next++ {
+					v := e.Violations[next]
+					if tried[v.Label] < 2 {
+						tried[v.Label]++
+						todo = append(todo, v)
+					}
+				}
+				e.mu.Unlock()
+				for _, v := range todo {
+					if early(v) {
+						e.mu.Lock()
+						e.stopEarly = true
+						res.StoppedEarly = true
+						e.mu.Unlock()
+						return
+					}
+				}
+			}
+		}()
+	}
 	wg.Wait()
+	close(monDone)
 	res.Remaining = e.work.n
 	res.Wall = time.Since(t1)
 	for _, sv := range solvers {
